@@ -51,6 +51,11 @@ def obligations(tier):
         for ln in (lens[idx][-1:] if tier == 'quick' and idx not in (0, 5) else lens[idx]):
             add('pa.allocate_small_hit.class%d.len%d' % (idx, ln), 'h_pa_allocate_small_hit', 'pa_allocate', ['C01', 'C02', 'C03', 'C05'], unwind=8,
                 defines=['MK_SLAB_IDX=%d' % idx, 'HIT_LEN=%d' % ln], bound='size class %d, request of %d bytes, slab with 1 or 2 free slots' % (idx, ln))
+    # Policy::map failing (C04): slab construction and the miss path return null and leave the pool untouched, for both kinds of policy
+    for p in ('pa', 'pu'):
+        add('%s.construct_slab_mapfail' % p, 'h_%s_construct_slab' % p, '%s__construct_slab' % p, ['C04', 'C05'], unwind=8, defines=['SLAB_INDEX=5', 'MAP_FAILS'], bound='Policy::map returns 0')
+        add('%s.allocate_small_miss_mapfail' % p, 'h_%s_allocate_small_miss' % p, '%s_allocate' % p, ['C04', 'C05'], unwind=8, defines=['SLAB_INDEX=5', 'HIT_LEN=200', 'MAP_FAILS'], bound='empty bucket, Policy::map returns 0')
+        add('%s.allocate_large_mapfail' % p, 'h_%s_allocate_large' % p, '%s_allocate' % p, ['C04', 'C05'], unwind=8, defines=['ALLOC_LEN=300', 'MAP_FAILS'], bound='request of 300 bytes, Policy::map returns 0')
     # the miss path (empty bucket: map a slab, carve it, hand out its first slot, attach it) on the success path of map
     for idx, ln in (((5, 200), (3, 64)) if tier == 'quick' else ((5, 200), (5, 256), (4, 128), (3, 64), (2, 32), (1, 16), (0, 0), (0, 8))):
         add('pa.allocate_small_miss_ok.class%d.len%d' % (idx, ln), 'h_pa_allocate_small_miss', 'pa_allocate', ['C01', 'C02', 'C03', 'C05'], unwind=0x400 // (8 << idx) + 4,
@@ -68,9 +73,9 @@ def obligations(tier):
         add('%s.free_null' % p, 'h_%s_free_null' % p, '%s_free' % p, ['C02'], unwind=8)
         add('%s.free_large' % p, 'h_%s_free_large' % p, '%s_free' % p, ['C02', 'C03', 'C05'], unwind=8, tiers=['thorough'], heavy=True, timeout=3000)
     # dispatch on large blocks with Policy::map succeeding (addresses stay concrete, which keeps these in the quick tier)
-    for p in ('pa', 'pu'):
-        add('%s.free_large_ok' % p, 'h_%s_free_large' % p, '%s_free' % p, ['C01', 'C02', 'C03', 'C05'], unwind=8, defines=['MAP_SUCCEEDS'], timeout=1500, cost=20)
-    pairs = ((300, 700), (300, 500), (700, 300)) if tier == 'quick' else ((300, 700), (300, 500), (300, 512), (300, 513), (700, 300), (4096, 4097), (257, 256))
+    # (free of a large block through the dispatcher and a moving realloc between large frames run out of memory even so; the first stays in the
+    # thorough tier with the larger memory limit, the second is covered by pa.realloc_large_move with allocate/free replaced by their contracts)
+    pairs = ((300, 500), (700, 300)) if tier == 'quick' else ((300, 500), (300, 512), (700, 300), (257, 256))
     for o_, n_ in pairs:
         add('pa.realloc_large_ok.%d_%d' % (o_, n_), 'h_pa_realloc_large', 'pa_realloc', ['C01', 'C02', 'C03', 'C04', 'C05'], unwind=8,
             defines=['MAP_SUCCEEDS', 'RE_OLD=%d' % o_, 'RE_NEW=%d' % n_], bound='realloc of a large block of %d bytes to %d bytes; Policy::map succeeds' % (o_, n_), timeout=1500, cost=20)
